@@ -86,6 +86,11 @@ macro_rules! dispatch {
 /// If this is compiling for a no std target, this selection is done
 /// at compile time only.
 pub fn is_avx512_available() -> bool {
+    #[cfg(cfavml_verif)]
+    if let Some(forced) = verif::forced(0) {
+        return forced;
+    }
+
     if cfg!(target_feature = "avx512f") {
         return true;
     }
@@ -105,6 +110,11 @@ pub fn is_avx512_available() -> bool {
 /// If this is compiling for a no std target, this selection is done
 /// at compile time only.
 pub fn is_avx2_available() -> bool {
+    #[cfg(cfavml_verif)]
+    if let Some(forced) = verif::forced(1) {
+        return forced;
+    }
+
     if cfg!(target_feature = "avx2") {
         return true;
     }
@@ -124,6 +134,11 @@ pub fn is_avx2_available() -> bool {
 /// If this is compiling for a no std target, this selection is done
 /// at compile time only.
 pub fn is_fma_available() -> bool {
+    #[cfg(cfavml_verif)]
+    if let Some(forced) = verif::forced(2) {
+        return forced;
+    }
+
     if cfg!(target_feature = "fma") {
         return true;
     }
@@ -143,6 +158,11 @@ pub fn is_fma_available() -> bool {
 /// If this is compiling for a no std target, this selection is done
 /// at compile time only.
 pub fn is_neon_available() -> bool {
+    #[cfg(cfavml_verif)]
+    if let Some(forced) = verif::forced(3) {
+        return forced;
+    }
+
     if cfg!(target_feature = "neon") {
         return true;
     }
@@ -153,4 +173,31 @@ pub fn is_neon_available() -> bool {
     }
 
     false
+}
+
+#[cfg(cfavml_verif)]
+/// Verification hook: lets a test harness present a reduced CPU feature set to the
+/// dispatcher so every dispatch outcome can be exercised on one host.
+///
+/// Only compiled with `--cfg cfavml_verif`; has no effect on normal builds.
+pub mod verif {
+    use core::sync::atomic::{AtomicU8, Ordering};
+
+    /// Bit 7 set = override active; bits 0..=3 = avx512, avx2, fma, neon reported available.
+    static MASK: AtomicU8 = AtomicU8::new(0);
+
+    /// Sets (or clears with `None`) the feature mask reported by the `is_*_available` checks.
+    pub fn set(mask: Option<u8>) {
+        MASK.store(mask.map(|m| 0x80 | (m & 0x0F)).unwrap_or(0), Ordering::SeqCst);
+    }
+
+    #[inline]
+    pub(crate) fn forced(bit: u8) -> Option<bool> {
+        let mask = MASK.load(Ordering::SeqCst);
+        if mask & 0x80 == 0 {
+            None
+        } else {
+            Some(mask & (1 << bit) != 0)
+        }
+    }
 }
